@@ -39,7 +39,7 @@ TRUSTED = [
 	'harness/wire.py is an independent RFC 7230 writer (it does not use httoop); the oracle compares deliveries with the writer\'s own records',
 	'the header/start-line layers of the model are tied by correspondence (same as C01); the Lean theorems cover the body: chunk framing written per RFC 7230 4.1 is decoded to exactly the payload, Content-Length bodies are taken octet for octet, and nothing of a delivered message survives in the state',
 ]
-ASSUMPTIONS = ['F18: a request with neither Content-Length nor chunked coding must be the last one in its parse() call (411 otherwise); the oracle feeds such pipelines cut at message boundaries']
+ASSUMPTIONS = ['F18: a request with neither Content-Length nor chunked coding must be the last one in its parse() call (411 otherwise); the oracle feeds such pipelines cut at message boundaries', 'a status raised by parse() ends the history: the state machine is not fed again after an error (DESIGN.md 6.2)']
 RULE = ('pipelines of 1-4 requests or responses from the writer (methods, origin/absolute/authority/asterisk targets, 1.0/1.1, header case and OWS, repeated fields, binary bodies, random chunk partitions, extensions, announced trailers) '
 	'x truncation points (every point for streams <= 400 octets in thorough, sampled otherwise) x fragmentations; non-trivial = >= 2 messages delivered and all fields equal the writer\'s record; distinct by wire text')
 BATCH = 2000
